@@ -335,7 +335,7 @@ func registerC01() {
 		rule: "case = coordinator options + discovered set + explorer table + per-shard scripted reports/health for one cycle, executed R times (map order, random choice) through the real Coordinator.Run; " +
 			"directed families (two and three copies of one target in every state/scrape-count/load-order combination, next to out-of-sync holders; vanished targets; a tail shard whose targets fit the front shards for some first-fit orders only, 40 repetitions each; an unassigned target that fits only into shards with less than 1 % of free space) followed by seed-determined random cases; " +
 			"plus closed loops on engine E2 (48/1600): even ones with 11-13 simulated pods listed and scaled by the REAL Kubernetes managers over a client-go fake (pods created in shuffled order, targets on high ordinals, scale-down enabled in most), odd ones random fault-free workloads; orphan rule per cycle in which all shards were in sync: listed before, still discovered => listed by a remaining shard after; " +
-			"plus 2/6 cases on the real binaries (engine E7): the coordinator process is killed and restarted while the sidecars keep their targets and the configuration is unchanged; at every snapshot during the first 25 cycles of the new process every target is listed by some shard; " +
+			"plus 2/6 cases on the real binaries (engine E7): the coordinator process is killed and restarted while the sidecars keep their targets and the configuration is unchanged; at every snapshot during the first 25 cycles of the new process every target is listed by some shard; or the coordinator reloads a configuration in which only the global scrape_interval changed, and every snapshot of the next 50 cycles must show every target on some shard; " +
 			"non-trivial = at least 2 shards and a discovered target reported by an in-sync shard; distinct = hash of the case with sizes bucketed",
 		judge: judgeC01, nDirect: nA + nB + nC + nD + nE, direct: direct,
 		nRandom: map[string]int{"quick": 20000, "thorough": 300000},
@@ -535,11 +535,11 @@ func registerC04() {
 	register(&propDef{
 		id: "C04",
 		rule: "same engine as C01 with boundary-biased loads; directed families force each placement path (first assignment first-fit and weighted, head relief at every threshold, process relief, scale-down emptying the tail, oversized targets, several placements on one destination) with load+size at limit-1/limit/limit+1; " +
-			"plus real-process cases (2/8, engine E7): estimates from the real explorer probing 80-130 KB bodies (several parser blocks), a process limit two targets fit under and three do not, one oversized target with few kept series, one big target whose first answer breaks off after 40 lines with a TCP reset, and in every second case a collect[] param with two values that each add 700 samples to every answer (six targets that fit two per shard, or two targets and one that exceeds the limit only with both collectors); at every snapshot the farm's TRUE totals of the targets a shard lists stay below the limit; " +
+			"plus real-process cases (2/8, engine E7): estimates from the real explorer probing 80-130 KB bodies (several parser blocks), a process limit two targets fit under and three do not, one oversized target with few kept series, one big target whose first answer breaks off after 40 lines with a TCP reset, and in every second case a collect[] param with two values that each add 700 samples to every answer (six targets that fit two per shard, or two targets and one that exceeds the limit only with both collectors), and cases in which the collect[] param arrives with a reload together with such a target; at every snapshot the farm's TRUE totals of the targets a shard lists stay below the limit; " +
 			"non-trivial = at least one placement observed or an oversized eligible target present; distinct = hash of the case with sizes bucketed",
 		judge: judgeC04, nDirect: nA + nB + nC + nD + nE + nF, direct: direct,
 		// real processes: the estimates come from the real explorer probing targets with bodies of several parser blocks
-		nExtra:  map[string]int{"quick": 2, "thorough": 8},
+		nExtra:  map[string]int{"quick": 3, "thorough": 8},
 		extra:   func(w *core.WorkerCtx, k int) *core.CaseResult { return e7.Run(w, k, "C04") },
 		bias:    genBias{unhealthyPer12: 2},
 		nRandom: map[string]int{"quick": 20000, "thorough": 300000},
